@@ -398,6 +398,31 @@ class Obligation:
 
 # ----------------------------------------------------------------------------- engine
 
+class Unknown:
+    """an arbitrary value of unknown shape (loop-carried container without invariant): comparisons and len() are arbitrary,
+    looking inside is unsupported"""
+
+    def __init__(self, name):
+        self.name = name
+
+    def vc_eq(self, eng, other):
+        return fresh(BOOL, 'eq_' + self.name).z
+
+    def vc_len(self, eng):
+        n = fresh(INT, 'len_' + self.name)
+        eng.assume(n.z >= 0)
+        return n
+
+    def vc_snapshot(self):
+        return self
+
+    def vc_getattr(self, eng, attr, node=None):
+        raise Unsupported('attribute %s of the loop-carried value %s (declare it in LoopSpec.types)' % (attr, self.name))
+
+    def vc_iter(self, eng):
+        raise Unsupported('iteration over the loop-carried value %s (declare it in LoopSpec.types)' % self.name)
+
+
 class LoopSpec:
     """Inductive loop contract.  inv: list of (name, expr-string); k: name of the ghost
     iteration counter visible to the invariants; types: types for variables first
@@ -1380,7 +1405,10 @@ class Engine:
         if isinstance(base, dict):
             k = self.hashable(idx)
             if is_sym(k):
-                # symbolic key into a dict with concrete keys
+                # symbolic key into a dict with concrete keys: a key that is syntactically the same term is the entry
+                for kk in list(base.keys()):
+                    if kk is k or (is_sym(kk) and kk.z.eq(k.z)):
+                        return base[kk]
                 for kk in list(base.keys()):
                     e = self.equals(kk, k)
                     if e is True or (e is not False and self.branch(e)):
@@ -2590,6 +2618,10 @@ class Engine:
             return fresh(STR, name)
         if isinstance(cur, tuple):
             return tuple(self.havoc_like(x, None, name) for x in cur)
+        if isinstance(cur, (list, dict, set)):
+            # a container rebound inside the loop and not described by the loop contract: at an arbitrary iteration it is an
+            # arbitrary value (sound over-approximation) - whatever a clause says about it cannot be proved
+            return Unknown(name)
         raise Unsupported('cannot havoc loop variable %s of type %s (declare it in LoopSpec.types)' % (name, pytype(cur)))
 
     # ---- specs
